@@ -6,6 +6,7 @@
 //! trusted: R15 (deep slice): ChannelManager::handle_channel_resumption: the two function-local macros handle_cs! / handle_raa! and the match on commitment_order that invokes them, verbatim (the macro definitions are part of the slice); MessageSendEvent is a two-variant skeleton; channel_ready / tx_signatures / announcement_sigs / forwards handling around it is dropped and not claimed
 //! trusted: R15 (deep slice): ChannelManager::handle_channel_resumption: the statements that decide whether the released update_add_htlcs are returned for decoding, verbatim as a function (UpdateAddHTLC skeleton; the channel stub answers is_connected())
 //! trusted: R15 (deep slice): commitment_signed_update_monitor from `self.context.expecting_peer_commitment_signed = false` to the end of the function, verbatim as a function of the update just built and need_commitment; build_commitment_no_status_check (one more update, next id, nothing held changes), push_ret_blockable_mon_update (returns the update or holds it) are external_body; monitor_updating_paused carries the contract proved for it in this unit; `a.append(&mut b)` is vec_append (R8)
+//! trusted: R15 (deep slices): ChainMonitor::flush: the arm that applies a queued update and the match that reports the outcome, verbatim (R5: the monitor set is a stub whose update_channel_internal / channel_monitor_updated record their arguments; `&self` written `&mut self`; logger constructions dropped); the NewMonitor arm and the queue handling are not sliced
 //! trusted: ChannelManager::handle_monitor_update_res is extracted whole (the logger type parameter instantiated, the startup flag an AtomicFlag stub); handle_new_monitor_update_locked_actions_handled_by_caller: the statements after the Watch call (removal of a completed update from the in-flight list, the defensive panic, the result pair) are sliced as a function of the in-flight list; handle_new_monitor_update_with_status / handle_post_close_monitor_update: the conditions under which the channel is resumed / the blocked actions released (slices)
 //! trusted: R10: `panic!(..)` statements the source reaches on purpose (unrecoverable persistence failure; a Watch that reports Completed while earlier updates are in progress) are calls of a stub that never returns
 //! trusted: R15 (deep slice): get_update_fulfill_htlc_and_commit: the statements that give a preimage update the id of the first blocked update and renumber the blocked ones, verbatim (the looked-up element expression, the id expressions and the loop body are captured); R7: `opt.map(|upd| M).unwrap_or(D)` is written as a match; R6: `for x in v.iter_mut() { B }` is an index loop that copies the element out, runs B on it and writes it back; the blocked queue is a Vec of {update: {update_id}} skeletons
@@ -495,6 +496,49 @@ impl Chan {
 //@end
 }
 #[verifier::external_body] pub fn vec_append<T>(v: &mut Vec<T>, w: &mut Vec<T>) ensures final(v)@ == old(v)@ + old(w)@, final(w)@.len() == 0 { unimplemented!() }
+}
+// ---- ChainMonitor::flush (deferred mode): a queued operation is applied under its own id, and a completed one is reported as completed for exactly that id ----
+pub mod deferred_flush {
+use vstd::prelude::*;
+#[derive(Clone, Copy)] pub struct ChannelId { pub id: u64 }
+pub struct ChannelMonitorUpdate { pub update_id: u64 }
+pub struct LoggerStub {}
+pub enum ChannelMonitorUpdateStatus { Completed, InProgress, UnrecoverableError }
+pub enum Did { Applied { channel_id: ChannelId, update_id: u64 }, ReportedCompleted { channel_id: ChannelId, update_id: u64 } }
+pub uninterp spec fn persister_answer(channel_id: ChannelId, update_id: u64) -> ChannelMonitorUpdateStatus;
+pub struct Monitors { pub did: Ghost<Seq<Did>> }
+impl Monitors {
+    // applies the update and returns what the persister answered; never returns UnrecoverableError (it panics on it): proved for the real function in this unit's ChainMonitor slices
+    #[verifier::external_body] pub fn update_channel_internal(&mut self, channel_id: ChannelId, update: &ChannelMonitorUpdate) -> (r: ChannelMonitorUpdateStatus)
+        ensures final(self).did@ == old(self).did@.push(Did::Applied { channel_id, update_id: update.update_id }), r == persister_answer(channel_id, update.update_id), !(r is UnrecoverableError) { unimplemented!() }
+    #[verifier::external_body] pub fn channel_monitor_updated(&mut self, channel_id: ChannelId, completed_update_id: u64) -> (r: Result<(), ()>)
+        ensures final(self).did@ == old(self).did@.push(Did::ReportedCompleted { channel_id, update_id: completed_update_id }), r is Ok { unimplemented!() }
+//@extract lightning/src/chain/chainmonitor.rs :: impl ChainMonitor :: fn flush
+//@slice R15
+    PendingMonitorOp::Update { channel_id, update } => { let logger = $lg:seq; drop(queue); $body:straight ($t:seq) },
+//@with
+    fn flush_one_queued_update(&mut self, channel_id: ChannelId, update: ChannelMonitorUpdate) -> (ChannelId, u64, ChannelMonitorUpdateStatus) { $body ($t) }
+//@ret r
+//@ensures P C09 a-queued-monitor-update-is-applied-when-flushed-and-its-outcome-is-recorded-under-its-own-channel-and-update-id
+    final(self).did@ == old(self).did@.push(Did::Applied { channel_id, update_id: update.update_id }),
+    r.0 == channel_id, r.1 == update.update_id, r.2 == persister_answer(channel_id, update.update_id),
+//@end
+//@extract lightning/src/chain/chainmonitor.rs :: impl ChainMonitor :: fn flush
+//@slice R15
+    match status { ChannelMonitorUpdateStatus::Completed => { let logger = $lg:seq; $c:any }, $rest:any } }
+//@with
+    fn report_flushed_operation(&mut self, channel_id: ChannelId, update_id: u64, status: ChannelMonitorUpdateStatus, logger: &LoggerStub) { match status { ChannelMonitorUpdateStatus::Completed => { $c }, $rest } }
+//@requires
+    !(status is UnrecoverableError),
+//@ensures P C09 a-flushed-operation-is-reported-as-completed-exactly-when-its-persistence-completed-and-under-its-own-id
+    status is Completed ==> final(self).did@ == old(self).did@.push(Did::ReportedCompleted { channel_id, update_id }),
+    status is InProgress ==> final(self).did@ == old(self).did@,
+//@mutant in_progress_operation_reported_completed
+    ChannelMonitorUpdateStatus::InProgress => {},
+//@with
+    ChannelMonitorUpdateStatus::InProgress => { let _ = self.channel_monitor_updated(channel_id, update_id); },
+//@end
+}
 }
 }
 fn main() {}
